@@ -17,7 +17,7 @@ import random
 import vcheck as V
 import _place as P
 
-NS_NAMES = ["ns0", "test-ns", "a", "yz_kv_07"]
+NS_NAMES = ["ns0", "test-ns", "a", "yz_kv_07"]      # (historic; the enumeration now uses placesim's name pool)
 
 
 def classify(e, clauses):
@@ -163,10 +163,10 @@ def run(ctx):
     quick = ctx.quick()
     # ---- (B) enumeration of small topologies on the real functions
     if quick:
-        names = [NS_NAMES[ctx.seed % len(NS_NAMES)]]
+        names = ["@pool"]            # a pool name per work unit (hash residues mod 60 + 32-bit boundary hashes)
         shards, maxn, hist, histn = 4, 5, 3, 4
     else:
-        names = NS_NAMES[:3]          # fresh layouts under three ring rotations, history trees under the first
+        names = ["@pool"] * 3        # fresh layouts under three pool names per unit, history trees under the first
         shards, maxn, hist, histn = 12, 6, 3, 5
     jobs = []
     for s in range(shards):
@@ -216,6 +216,11 @@ def run(ctx):
         calls_under_v1_balance_premise=tot("balance_premise_calls"),
         calls_with_previous_layout=tot("incremental_calls"),
         calls_with_too_few_nodes=tot("too_few_nodes_calls"),
+        calls_on_mixed_tag_node_sets=tot("mixed_tag_calls"),
+        calls_with_boundary_hash_namespace=tot("boundary_hash_name_calls"),
+        namespace_name_pool="79 names: 60 covering every hash residue mod 60 (every residue mod each node count 1..6) + "
+                            "19 whose murmur3.Sum32 is 0,1,2, 2^31-2..2^31+1, 2^32-12..2^32-1 (brute-forced once, "
+                            "placesim -mode findns, re-checked at start-up); rotated over the work units by seed",
         max_nodes=max([r.get("max_nodes", 0) for r in stats["runs"]] or [0]),
         max_partitions=max([r.get("max_partitions", 0) for r in stats["runs"]] or [0]),
         enumeration=dict(max_nodes=maxn, max_dcs=3, max_partitions=8, max_replicas=3, history_depth=hist,
